@@ -128,6 +128,18 @@ func authMutants(m storage.Message, w *world.World, r *sched.Rng) []mutant {
 	c.SenderAddr = "stranger"
 	c.Signature = ed25519.Sign(fresh, c.Bytes())
 	add("stranger-with-own-key", c)
+	// addressed to a round this node has never heard of: no key is registered there for anybody, so
+	// neither the genuine signature (it covers the payload only) nor any other can verify
+	for _, rid := range []string{fmt.Sprintf("%064x", r.Uint64()), "", m.DkgRoundID + "0", m.DkgRoundID + " ", "round-that-does-not-exist"} {
+		c = cp()
+		c.DkgRoundID = rid
+		add(fmt.Sprintf("readdressed-to-unknown-round:%q", trunc(rid, 12)), c)
+	}
+	c = cp()
+	c.DkgRoundID = fmt.Sprintf("%064x", r.Uint64())
+	c.SenderAddr = "stranger"
+	c.Signature = ed25519.Sign(fresh, c.Bytes())
+	add("readdressed-to-unknown-round:stranger-with-own-key", c)
 	return out
 }
 
